@@ -5,7 +5,7 @@ import io, contextlib, itertools
 from . import base, tlc, flat
 
 U = 65536
-UNIT = 4096
+UNIT = 262144
 CONFIGS = [{"G8": 4, "D8": 1, "MinC": 0, "MaxC": 0}, {"G8": 4, "D8": 1, "MinC": 2 * UNIT, "MaxC": 8 * UNIT}, {"G8": 8, "D8": 4, "MinC": 0, "MaxC": 0},
            {"G8": 2, "D8": 0, "MinC": 0, "MaxC": 3 * UNIT}, {"G8": 6, "D8": 2, "MinC": UNIT, "MaxC": 0}]
 STARTS = [k * 2 * UNIT for k in range(-4, 5)]
@@ -13,7 +13,7 @@ JUMPS = [k * UNIT for k in (-40, -3, 3, 40)]
 
 
 def constants(c):
-    return dict(c, MaxSteps=4)
+    return dict(c, MaxSteps=6)
 
 
 def exact(v):
@@ -26,9 +26,13 @@ def exact(v):
 def sessions(tier):
     ops = [("step", 0)] + [("disturb", j) for j in JUMPS] + [("setpoint", j) for j in JUMPS]
     plans = []
-    for n in (1, 2, 3, 4, 5) if tier == "quick" else (1, 2, 3, 4, 5, 6):
+    for n in range(1, 9):
         for seq in itertools.product(ops, repeat=n):
-            if sum(1 for o in seq if o[0] == "step") <= 4 and seq[-1][0] == "step" and sum(1 for o in seq if o[0] != "step") <= 2:
+            if seq[-1][0] != "step":
+                continue
+            st = sum(1 for o in seq if o[0] == "step")
+            j = n - st
+            if st <= 6 and (j <= 1 or (j == 2 and st <= (3 if tier == "quick" else 4))):
                 plans.append(seq)
     return plans
 
@@ -46,10 +50,11 @@ def run(tier):
         R.add_tlc("Homeostasis gain=%d/8 damping=%d/8 min=%d max=%d" % (c["G8"], c["D8"], c["MinC"], c["MaxC"]), r)
         if r["violated"]:
             raise base.MachineryError("Homeostasis.tla violates its own properties: %s\n%s" % (r["violated"], r["out"][-2000:]))
-    r2 = tlc.run_tlc("Homeostasis", tlc.cfg_text(spec="Spec", constants=constants(CONFIGS[0]), properties=["ErrorNeverGrows"]), workers=8, timeout=1200)
-    if not r2["violated"]:
-        raise base.MachineryError("probe ErrorNeverGrows should be refuted by Homeostasis.tla (stale last error after a jump) and is not")
-    away = 0
+    for probe in ("ErrorNeverGrows", "NoOvershootFromRest"):
+        r2 = tlc.run_tlc("Homeostasis", tlc.cfg_text(spec="Spec", constants=constants(CONFIGS[0]), properties=[probe]), workers=8, timeout=600)
+        if not r2["violated"]:
+            raise base.MachineryError("probe %s should be refuted by Homeostasis.tla and is not" % probe)
+    away = over = 0
     plans = sessions(tier)
     for c in CONFIGS:
         recs = []
@@ -80,6 +85,8 @@ def run(tier):
                         recs.append({"b": b, "x": exact(plant), "a": a, "corr": exact(corr), "applied": exact(new)})
                         if abs(loop.setpoint - new) > abs(loop.setpoint - plant):
                             away += 1
+                        if not any(o[0] != "step" for o in plan) and (loop.setpoint - new) * (loop.setpoint - plant) < 0 and (c["G8"], c["D8"]) == (4, 1):
+                            over += 1
                         plant = new
         r, pf, dr = flat.judge("Trace_Homeostasis", recs, constants=constants(c), tag="homeostasis", workers=8)
         R.add_tlc("Trace_Homeostasis gain=%d/8 damping=%d/8 (%d recorded calls)" % (c["G8"], c["D8"], len(recs)), r)
@@ -92,6 +99,7 @@ def run(tier):
         R.cov["traces_validated_against_impl"] += len(recs)
         R.cov["evaluations"] += len(recs)
     R.cov["design_fact_damping_can_push_away"] = {"ErrorNeverGrows": "refuted by TLC", "calls_on_the_code_after_which_the_plant_was_further_from_the_setpoint": away}
-    R.cov["rule"] = "every session: 5 / 9 starts x every plan of up to 5 / 6 operations (at most 4 steps, at most 2 jumps: disturbances or new setpoints) x 5 parameter sets; measure() and apply() alternate"
-    R.assumptions.append("dyadic inputs: gain and damping in eighths, values multiples of 2^-4, at most four steps per session, so binary floating point is exact")
+    R.cov["design_fact_overshoot_from_rest"] = {"NoOvershootFromRest": "refuted by TLC (sixth step)", "undisturbed_calls_on_the_code_after_which_the_error_changed_sign": over}
+    R.cov["rule"] = "every session: 5 / 9 starts x every plan with at most 6 steps and at most 1 jump (2 jumps up to 3 / 4 steps; jumps = disturbances or new setpoints) x 5 parameter sets; measure() and apply() alternate"
+    R.assumptions.append("dyadic inputs: gain and damping in eighths, values multiples of 4.0, at most six steps per session, so binary floating point is exact")
     return R.finish()
